@@ -7,6 +7,8 @@ package main
 //     uninterpreted functions of (k,h) (leading byte in 01..7e, so no padding is needed);
 //   * ParsePubKey / ParseSignature / ParseDERSignature succeed on what the model produced and are
 //     an arbitrary (uninterpreted) boolean of the bytes otherwise;
+//   * signatures made with different keys or over different digests are different byte strings;
+//     different private keys have different public keys;
 //   * Verify(h, pub, sig) holds exactly when sig is a signature the model made by Sign(k, h0) with
 //     pub = pub(k) and h "equal" to h0 (existential unforgeability), where equality of two digests
 //     of the same hash UF is equality of their preimages (collision-free idealisation).
@@ -216,6 +218,13 @@ func init() {
 		sig = append(sig, tb.BVConst(8, 0x02), tb.BVConst(8, 32))
 		sig = append(sig, sb...)
 		rec := &signRec{key: k, hash: hash, sig: sig}
+		// signatures of different keys or different digests are different byte strings
+		for _, old := range es.signs {
+			if len(old.sig) == len(sig) {
+				sameKey := in.bytesEq(Slice{A: old.key.priv}, Slice{A: k.priv})
+				in.addPC(tb.Implies(in.bytesEq(Slice{A: old.sig}, Slice{A: sig}), tb.And(sameKey, in.hashEqIdeal(hash, old.hash))))
+			}
+		}
 		es.signs = append(es.signs, rec)
 		return Tuple{&Opaque{Kind: "ecsig", Data: &ecSig{bytes: sig, signed: rec}}, Iface{}}
 	})
